@@ -42,7 +42,7 @@ import (
 )
 
 const (
-	bound      = 5 * time.Second
+	longBound  = 5 * time.Second
 	settleTime = 150 * time.Microsecond
 	resNil     = -1 // worker result: nil
 	resCtx     = 0  // context.Canceled (a waiting worker returns ctx.Err())
@@ -200,6 +200,18 @@ func (o *oracle) expect() obsT {
 
 var baseG int // goroutines of the idle harness
 
+// bound for awaiting something that must happen.  Generous (5 s) - but once three such waits have expired in this run the
+// library is evidently not doing what is expected and the remaining cases wait 250 ms only, so that a broken library is
+// reported in seconds rather than after (number of cases) x 5 s.
+var expired int
+
+func bound() time.Duration {
+	if expired >= 3 {
+		return 250 * time.Millisecond
+	}
+	return longBound
+}
+
 func waitCount(target int, d time.Duration) bool {
 	deadline := time.Now().Add(d)
 	for i := 0; ; i++ {
@@ -290,25 +302,28 @@ func runSeq(c seqCase) (obs, exp []obsT, fails []failure, problem string) {
 		if e.Ctx != ctxLive {
 			select {
 			case <-ctx.Done():
-			case <-time.After(bound):
-				fail(k, "ctx-not-cancelled", "the group context is still live %v after the operation", bound)
+			case <-time.After(bound()):
+				expired++
+				fail(k, "ctx-not-cancelled", "the group context is still live %v after the operation", bound())
 			}
 		}
 		if e.WaitRet && !waitSeen {
 			select {
 			case err := <-waitCh:
 				waitSeen, waitRes = true, codeOf(err)
-			case <-time.After(bound):
-				fail(k, "wait-hangs", "Wait has not returned %v after the last worker function returned", bound)
+			case <-time.After(bound()):
+				expired++
+				fail(k, "wait-hangs", "Wait has not returned %v after the last worker function returned", bound())
 			}
 		}
 		pending := 0
 		if waitStarted && !waitSeen {
 			pending = 1
 		}
-		if !waitCount(baseG+n-e.Fin+pending, bound) {
+		if !waitCount(baseG+n-e.Fin+pending, bound()) {
+			expired++
 			fail(k, "goroutine-not-finished", "%d group goroutines should have finished, %d have (after %v)",
-				e.Fin, baseG+n+pending-runtime.NumGoroutine(), bound)
+				e.Fin, baseG+n+pending-runtime.NumGoroutine(), bound())
 		}
 		settle()
 		if waitStarted && !waitSeen {
@@ -359,11 +374,11 @@ func runSeq(c seqCase) (obs, exp []obsT, fails []failure, problem string) {
 	if !waitSeen {
 		select {
 		case <-waitCh:
-		case <-time.After(bound):
+		case <-time.After(bound()):
 			problem = "clean-up: Wait did not return after every gate was opened and the parent cancelled"
 		}
 	}
-	if !waitCount(baseG, bound) {
+	if !waitCount(baseG, bound()) {
 		problem = fmt.Sprintf("clean-up: %d goroutines left over", runtime.NumGoroutine()-baseG)
 		baseG = runtime.NumGoroutine()
 	}
@@ -433,12 +448,13 @@ func runRace(c raceCase) (fails []failure, problem string) {
 	select {
 	case err := <-waitCh:
 		res = codeOf(err)
-	case <-time.After(bound):
-		fail("wait-hangs", "Wait has not returned %v after every gate was opened", bound)
+	case <-time.After(bound()):
+		expired++
+		fail("wait-hangs", "Wait has not returned %v after every gate was opened", bound())
 		cancelParent(errParent)
 		select {
 		case <-waitCh:
-		case <-time.After(bound):
+		case <-time.After(bound()):
 			problem = "clean-up: Wait never returned"
 			baseG = runtime.NumGoroutine()
 			return
@@ -446,8 +462,9 @@ func runRace(c raceCase) (fails []failure, problem string) {
 		res = codeOther
 	}
 	// every goroutine started before Wait has run wg.Done and is about to be gone
-	if !waitCount(baseG, bound) {
-		fail("goroutine-left", "%d goroutines still exist %v after Wait returned", runtime.NumGoroutine()-baseG, bound)
+	if !waitCount(baseG, bound()) {
+		expired++
+		fail("goroutine-left", "%d goroutines still exist %v after Wait returned", runtime.NumGoroutine()-baseG, bound())
 		baseG = runtime.NumGoroutine()
 	}
 	failing := map[int]bool{}
